@@ -302,4 +302,33 @@ def c15(tier, seed):
                 exhaustive=False)
 
 
-CHECKS = {'C04': c04, 'C15': c15, 'C20': c20, 'C11': c11, 'C07': c07, 'C08': c08, 'C09': c09, 'C19': c19, 'C10': c10, 'C01': c01, 'C02': c02, 'C03': c03, 'C05': c05, 'C06': c06, 'C12': c12}
+
+def c18(tier, seed):
+    def key(scn):
+        r = scn['req']
+        if (r['integ'] == 'werkzeug' and r['statusfn'] == 'custom') or r['body'] == 'non_utf8':
+            return None     # non-UTF-8 bodies are a don't-care region (400 or a -32700 document)                     # werkzeug has no status function: constant 200 (modelled)
+        return _strip(scn, ('integ',))
+    def obs(tr):
+        # the members of the reply the statement fixes: status; body class unless refused; content type only of a relayed document
+        e = tr['ev'][0]
+        refused = e['status'] in (400, 415)
+        return {'status': e['status'], 'execs': e['execs'], 'body': 'any' if refused else e['body'],
+                'ctype': e['ctype'] if (not refused and e['body'] in ('same', 'parse_error')) else 'any'}
+    st = Stage('httpgate', mc=('HttpGateMC', 'HttpGate.cfg'), emit=('HttpGateMC', 'HttpGate_emit.cfg'), driver='httpgate',
+               trace=('HttpGateTrace', 'HttpGateTrace.cfg'), drive_shards=8, pairing=(key, obs),
+               nontrivial=lambda tr: tr['ev'] and tr['ev'][0].get('execs', 0) > 0)
+    return dict(stages=[st],
+                rule='integrations {aiohttp (loopback test server), flask, werkzeug (test clients)} x 25 media types (each documented '
+                     'type plain / with charset / upper-case / both / with spaces; near-miss, unrelated, +json suffix, missing header) x '
+                     '10 body classes (call, failing call, notification, batches, unknown method, invalid, not JSON, not UTF-8) x '
+                     'default / custom status function x main / additional endpoint: the full product (3000 requests); every reply is '
+                     'validated by TLC and the replies of the integrations to the same request are compared pairwise; '
+                     'non-trivial = a method ran',
+                assumptions=ASSUME_COMMON + ['"exactly the dispatcher\'s response document" is observed as JSON-value equality with what an '
+                                             'identically configured dispatcher returns for the same text', 'a non-UTF-8 body is a '
+                                             'don\'t-care region: 400 or a -32700 document, but no method may run'],
+                exhaustive=True)
+
+
+CHECKS = {'C04': c04, 'C18': c18, 'C15': c15, 'C20': c20, 'C11': c11, 'C07': c07, 'C08': c08, 'C09': c09, 'C19': c19, 'C10': c10, 'C01': c01, 'C02': c02, 'C03': c03, 'C05': c05, 'C06': c06, 'C12': c12}
